@@ -23,11 +23,11 @@ typedef unsigned __int128 u128;
 
 enum {
 	K_JOB_ADD, K_JOB_DEL, K_TIMER_ADD, K_TIMER_DEL, K_TIMER_QUERY, K_FD_OPEN, K_FD_ADD, K_FD_MOD, K_FD_DEL, K_FD_CLOSE,
-	K_FD_WRITE, K_FD_DRAIN, K_FD_PEER_CLOSE, K_FD_RETNEG, K_SIG_ADD, K_SIG_DEL, K_RAISE, K_STOP, K_BUSY, K_N
+	K_FD_WRITE, K_FD_DRAIN, K_FD_PEER_CLOSE, K_FD_RETNEG, K_SIG_ADD, K_SIG_DEL, K_RAISE, K_STOP, K_BUSY, K_FD_CLOSE_RETNEG, K_N
 };
 static const char *const op_names[K_N] = {
 	"job_add", "job_del", "timer_add", "timer_del", "timer_query", "fd_open", "fd_add", "fd_mod", "fd_del", "fd_close",
-	"fd_write", "fd_drain", "fd_peer_close", "fd_retneg", "sig_add", "sig_del", "raise", "stop", "busy"
+	"fd_write", "fd_drain", "fd_peer_close", "fd_retneg", "sig_add", "sig_del", "raise", "stop", "busy", "fd_close_retneg"
 };
 // Op layout: a[0] trigger (>= 0: object whose callback triggers it; -1: before the loop runs; -2: external event
 // at virtual time a[1] ns; -3: asynchronously at the a[1]-th intercepted libc call), a[1] nth invocation / time /
@@ -58,6 +58,7 @@ struct Obj {
 	std::vector<qb_loop_timer_handle> stale;   // handles that fired or were deleted
 	// fd
 	int rfd = -1, wfd = -1; bool reg = false; int fprio = 0; int events = 0; int64_t bytes = 0; bool peer_closed = false;
+	bool neg_pending = false; uint32_t neg_gen = 0; int neg_fd = -1;   // the callback closed its descriptor and will return a negative value
 	bool retneg_armed = false; int64_t ready_since = -1; int64_t fdl = -1; bool always_ready = false;
 	// signal handler
 	qb_loop_signal_handle sh = NULL; bool sreg = false; int sprio = 0; int signo = 0; int must = 0, may = 0; int64_t s_since = -1; int64_t sdl = -1;
@@ -98,7 +99,7 @@ static St *Lp;
 #define L (*Lp)
 
 static int p_del_queued_timer, p_del_queued_fd, p_del_queued_job, p_del_queued_sig, p_self_del, p_readd_in_cb, p_stale_handle,
-	p_slot_reuse_stale, p_fd_reuse, p_two_sig_then_del, p_retneg, p_stop, p_throttle50, p_ms31, p_ms32, p_overflow, p_equal_expiry,
+	p_slot_reuse_stale, p_fd_reuse, p_two_sig_then_del, p_retneg, p_close_retneg, p_number_reused_in_cb, p_stop, p_throttle50, p_ms31, p_ms32, p_overflow, p_equal_expiry,
 	p_timer_fired, p_long_run, p_eintr_epoll, p_async_sig, p_hup, p_busy;
 
 static void init(const char *prop)
@@ -115,6 +116,8 @@ static void init(const char *prop)
 	p_fd_reuse = counter_id("probe", "fd_number_reused");
 	p_two_sig_then_del = counter_id("probe", "two_queued_deliveries_then_delete");
 	p_retneg = counter_id("probe", "fd_callback_returned_negative");
+	p_close_retneg = counter_id("probe", "fd_callback_closed_its_descriptor_then_returned_negative");
+	p_number_reused_in_cb = counter_id("probe", "descriptor_number_reused_and_registered_inside_the_closing_callback");
 	p_stop = counter_id("probe", "stop_from_callback");
 	p_throttle50 = counter_id("probe", "job_throttle_50ms_taken");
 	p_ms31 = counter_id("probe", "timer_ms_value_ge_2^31");
@@ -283,6 +286,13 @@ static int32_t fd_cb(int32_t fd, int32_t revents, void *data)
 	o.invoked++;
 	o.ready_since = -1; fd_mark_ready(o);
 	fire_triggers(o);
+	if (o.neg_pending && o.neg_gen == rg->gen) {
+		// the descriptor was closed earlier in this callback (and its number may have been taken by another
+		// registration since): the negative return concerns this registration only
+		o.neg_pending = false; o.retneg_armed = false;
+		count(p_retneg);
+		return -1;
+	}
 	if (o.retneg_armed) {
 		// the usual pattern: close the descriptor and tell the loop to forget it
 		o.retneg_armed = false;
@@ -469,6 +479,7 @@ static void do_op(size_t oi, int from_obj)
 		if (r != 0) { VIOL(8, "poll-add-failed", "qb_loop_poll_add", "qb_loop_poll_add(fd) returned %d", r); break; }
 		o.reg = true; o.fprio = prio; o.events = POLLIN;
 		o.ready_since = -1; fd_mark_ready(o);
+		if (from_obj >= 0 && L.objs[(size_t)from_obj].neg_pending && L.objs[(size_t)from_obj].neg_fd == o.rfd) count(p_number_reused_in_cb);
 		break; }
 	case K_FD_MOD: {
 		if (o.type != O_FD || !o.reg) break;
@@ -517,6 +528,16 @@ static void do_op(size_t oi, int from_obj)
 	case K_FD_RETNEG:
 		if (o.type != O_FD || !o.reg || from_obj != tgt) break;
 		o.retneg_armed = true;
+		break;
+	case K_FD_CLOSE_RETNEG:
+		// the other usual pattern: close first, do more work (which may open and register descriptors that get the
+		// number just freed), then return a negative value
+		if (o.type != O_FD || !o.reg || from_obj != tgt || o.neg_pending || o.rfd < 0) break;
+		o.neg_fd = o.rfd;
+		close(o.rfd); if (o.wfd >= 0) close(o.wfd);
+		o.rfd = o.wfd = -1; o.bytes = 0; o.peer_closed = false; o.ready_since = -1;
+		o.reg = false; o.neg_pending = true; o.neg_gen = o.gen;
+		count(p_close_retneg);
 		break;
 	case K_SIG_ADD: {
 		if (o.type != O_SIG || o.sreg || L.stopped) break;
@@ -803,6 +824,14 @@ static void gen(const char *prop, RunSpec &spec)
 			else if (y < 58) p.add(0, K_FD_DRAIN, trg, nth, t);
 			else if (y < 66) p.add(0, K_FD_MOD, trg, nth, t, r.below(3), r.below(2));
 			else if (y < 78) { p.add(0, K_FD_DEL, trg, nth, t); if (r.chance(1, 2)) { p.add(0, K_FD_CLOSE, trg, nth, t); if (r.chance(2, 3)) { p.add(0, K_FD_OPEN, trg, nth, t); p.add(0, K_FD_ADD, trg, nth, t, r.below(3)); } } }
+			else if (y < 88 && r.chance(1, 3)) {
+				p.add(0, K_FD_CLOSE_RETNEG, t, nth, t);
+				if (r.chance(3, 4)) {
+					int64_t t2 = r.chance(1, 4) ? t : nj + nt + (int64_t)r.below((uint64_t)nf);
+					p.add(0, K_FD_OPEN, t, nth, t2); p.add(0, K_FD_ADD, t, nth, t2, r.below(3));
+					if (r.chance(2, 3)) p.add(0, K_FD_WRITE, r.chance(1, 2) ? t : trg, nth + (int64_t)r.below(2), t2, r.below(8));
+				}
+			}
 			else if (y < 88) { p.add(0, K_FD_RETNEG, t, nth, t); if (r.chance(1, 2)) { int64_t t2 = nj + nt + (int64_t)r.below((uint64_t)nf); p.add(0, K_FD_OPEN, trg, nth + 1, t2); p.add(0, K_FD_ADD, trg, nth + 1, t2, r.below(3)); } }
 			else { if (r.chance(1, 2)) p.add(0, K_FD_PEER_CLOSE, trg, nth, t); else p.add(0, K_FD_PEER_CLOSE, -2, (int64_t)r.below(3000000000ULL), t); }
 		} else if (x < wj + wt + wf + ws) {
